@@ -57,6 +57,37 @@ theorem before_iff {α : Type} [DecidableEq α] (l : List α) (a b : α) :
           simp at heq
           exact ⟨ys, l2, heq.2, fun h => hn (List.mem_cons_of_mem _ h), hb⟩
 
+theorem nodup_of_map {α β : Type} (f : α → β) {l : List α} (h : (l.map f).Nodup) : l.Nodup := by
+  induction l with
+  | nil => exact List.nodup_nil
+  | cons a l ih =>
+    simp only [List.map_cons, List.nodup_cons] at h ⊢
+    exact ⟨fun ha => h.1 (List.mem_map.2 ⟨a, ha, rfl⟩), ih h.2⟩
+
+theorem split_unique {α : Type} {b : α} {p1 q1 p2 q2 : List α} (h : p1 ++ b :: q1 = p2 ++ b :: q2)
+    (hnd : (p1 ++ b :: q1).Nodup) : p1 = p2 := by
+  induction p1 generalizing p2 with
+  | nil =>
+    cases p2 with
+    | nil => rfl
+    | cons y ys =>
+      simp only [List.nil_append, List.cons_append, List.cons.injEq] at h
+      obtain ⟨rfl, hq⟩ := h
+      simp only [List.nil_append, List.nodup_cons] at hnd
+      exact absurd (by rw [hq]; simp) hnd.1
+  | cons x xs ih =>
+    cases p2 with
+    | nil =>
+      simp only [List.nil_append, List.cons_append, List.cons.injEq] at h
+      obtain ⟨rfl, hq⟩ := h
+      simp only [List.cons_append, List.nodup_cons] at hnd
+      exact absurd (by simp) hnd.1
+    | cons y ys =>
+      simp only [List.cons_append, List.cons.injEq] at h
+      obtain ⟨rfl, hq⟩ := h
+      simp only [List.cons_append, List.nodup_cons] at hnd
+      rw [ih hq hnd.2]
+
 /-! ### `replay` -/
 
 theorem replay_append (g : Graph V) (xs ys : List (Call V)) :
